@@ -2,6 +2,7 @@
 //!  part 1: `HasDiscoveries::matches`, exhaustive (all six variants x all discovery subsets x property
 //!          lists of <= 4 with all expectation mixes and a foreign name) + duplicate-name lists.
 //!  part 2: timing / timeout / limits / seed replay on the real checkers (child processes), see `timing`.
+use srh::graph_big::*;
 use srh::out::*;
 use srh::rng::Rng;
 use srh::sx;
@@ -151,11 +152,258 @@ fn matches_part(out: &mut Out, thorough: bool, rng: &mut Rng) {
     out.sample("hd-matches all (0 5) ((0 a) (1 s)) => t   (`All` compares lengths: a foreign discovery counts)");
 }
 
-fn timing_part(_out: &mut Out, _thorough: bool, _rng: &mut Rng) {}
+// ---------------------------------------------------------------------------------------------
+// part 2: timing / limits / seed replay on the real checkers (each run in a child process)
+// ---------------------------------------------------------------------------------------------
+fn pr(exp: u8, m: u64, min_layer: u64) -> PropSpec {
+    PropSpec { exp, m, min_layer }
+}
+fn layered(layers: u64, width: u64, n_init: u64, seed: u64, props: Vec<PropSpec>) -> ModelSpec {
+    ModelSpec { shape: Shape::Layered { layers, width, deg: 3, n_init, oob_mod: 17 }, seed, props, panic_at: None, panic_thread: None }
+}
+fn describe(c: &RunCfg) -> String {
+    format!(
+        "{} threads={} fw={} target={:?} depth={:?} timeout={:?} chooser={} sim_seed={} model={:?}/seed{}",
+        c.strategy, c.threads, c.finish_when.sx(), c.target_state_count, c.target_max_depth, c.timeout_ms, c.chooser, c.sim_seed,
+        c.model.shape, c.model.seed
+    )
+}
+fn done<'a>(out: &mut Out, what: &str, cfg: &RunCfg, r: &'a ChildResult) -> Option<&'a RunOut> {
+    match r {
+        ChildResult::Done(o, _) => {
+            if o.joined != "ok" {
+                out.v("run-panicked", &format!("{}: {}", what, describe(cfg)));
+                None
+            } else {
+                Some(o)
+            }
+        }
+        ChildResult::Hang(el) => {
+            out.v("hang", &format!("{}: join did not return within {:?}: {}", what, el, describe(cfg)));
+            None
+        }
+        ChildResult::Crash(e) => {
+            out.v("child-crash", &format!("{}: {}: {}", what, e, describe(cfg)));
+            None
+        }
+    }
+}
+
+fn timing_part(out: &mut Out, thorough: bool, rng: &mut Rng) {
+    let wd = std::time::Duration::from_secs(60);
+    // (a) an expired timeout is observed within timeout + 1 s (poll period) + 2 s, for every thread count
+    let mut cfgs = vec![];
+    for strat in ["bfs", "dfs", "sim", "ondemand"] {
+        for &t in &[1usize, 2, 4] {
+            for &ms in &[200u64, 600] {
+                let mut c = RunCfg::new(
+                    ModelSpec { shape: Shape::BinTree { spin: 4000 }, seed: 3, props: vec![pr(0, 0, 0)], panic_at: None, panic_thread: None },
+                    strat, t,
+                );
+                c.timeout_ms = Some(ms);
+                c.record = false;
+                c.closure_cap = 50;
+                c.watchdog_ms = 20_000;
+                c.perturb = if rng.chance(1, 2) { 0 } else { 1 + rng.next() % 1000 };
+                cfgs.push(c);
+            }
+        }
+    }
+    let res = run_all(&cfgs, wd, 8);
+    for (c, r) in cfgs.iter().zip(res.iter()) {
+        out.stat(&format!("timeout-run-{}-threads{}", c.strategy, c.threads));
+        out.distinct(&describe(c));
+        if let Some(o) = done(out, "expired timeout", c, r) {
+            let bound = c.timeout_ms.unwrap() + 1000 + 2000;
+            if (c.strategy == "bfs" && c.threads == 4) || (c.strategy == "sim" && c.threads == 1) || (c.strategy == "dfs" && c.threads == 2) {
+                out.sample(&format!("timeout {} ms, {} threads={}: join after {} ms ({} states)", c.timeout_ms.unwrap(), c.strategy, c.threads, o.wall_ms, o.state_count));
+            }
+            if o.wall_ms > bound {
+                out.v("timeout-not-honoured", &format!("join returned after {} ms > {} ms: {}", o.wall_ms, bound, describe(c)));
+            }
+            if o.wall_ms < c.timeout_ms.unwrap() {
+                out.v("timeout-stopped-too-early", &format!("join returned after {} ms, before the timeout: {}", o.wall_ms, describe(c)));
+            }
+        }
+    }
+    // (b) an unexpired timeout (1000 s) changes neither results nor progress: ~3*10^5 states
+    let mut cfgs = vec![];
+    let seeds: Vec<u64> = (0..if thorough { 2 } else { 1 }).map(|_| 1 + rng.below(100000) as u64).collect();
+    for &seed in &seeds {
+        for strat in ["bfs", "dfs"] {
+            for &t in &[1usize, 2, 4] {
+                for timeout in [None, Some(1_000_000u64)] {
+                    let mut c = RunCfg::new(layered(60, 6500, 3, seed, vec![pr(0, 0, 0), pr(2, 50_000, 10), pr(0, 70_000, 20)]), strat, t);
+                    c.timeout_ms = timeout;
+                    c.record = t == 1;
+                    c.watchdog_ms = 120_000;
+                    cfgs.push(c);
+                }
+            }
+        }
+    }
+    let res = run_all(&cfgs, wd, 8);
+    for i in (0..cfgs.len()).step_by(2) {
+        let (c0, c1) = (&cfgs[i], &cfgs[i + 1]);
+        out.stat(&format!("unexpired-timeout-pair-{}-threads{}", c0.strategy, c0.threads));
+        out.distinct(&describe(c1));
+        let (a, b) = (done(out, "no timeout", c0, &res[i]), done(out, "unexpired timeout", c1, &res[i + 1]));
+        if let (Some(a), Some(b)) = (a, b) {
+            if c0.threads != 2 {
+                out.sample(&format!("unexpired timeout {} threads={}: {} states, {} ms without vs {} ms with", c0.strategy, c0.threads, a.unique, a.wall_ms, b.wall_ms));
+            }
+            let same = a.unique == b.unique && a.state_count == b.state_count && a.disc == b.disc
+                && (c0.threads > 1 || (a.max_depth == b.max_depth && a.order_digest == b.order_digest && a.visited == b.visited));
+            if !same {
+                out.v("unexpired-timeout-changes-results", &format!(
+                    "unique {} vs {}, state_count {} vs {}, disc {:?} vs {:?}, max_depth {} vs {}, visited {} vs {}: {}",
+                    a.unique, b.unique, a.state_count, b.state_count, a.disc, b.disc, a.max_depth, b.max_depth, a.visited, b.visited, describe(c1)));
+            }
+            if a.unique != a.closure {
+                out.v("run-mismatch", &format!("unique {} != closure {}: {}", a.unique, a.closure, describe(c0)));
+            }
+            if b.wall_ms > 5 * a.wall_ms + 2000 {
+                out.v("unexpired-timeout-slows-down", &format!("{} ms with vs {} ms without: {}", b.wall_ms, a.wall_ms, describe(c1)));
+            }
+        }
+    }
+    // (c) finish_when x target_state_count x target_max_depth: observational bounds, judged by the Lean oracle
+    let mut cfgs = vec![];
+    let fws: Vec<(&str, Vec<usize>)> = vec![("all", vec![]), ("any", vec![]), ("anyf", vec![]), ("allf", vec![]), ("allof", vec![1, 2]), ("anyof", vec![2, 3]), ("allof", vec![0]), ("anyof", vec![])];
+    let n_c = if thorough { 700 } else { 110 };
+    for _ in 0..n_c {
+        let strat = *rng.pick(&["bfs", "dfs", "ondemand", "sim"]);
+        let t = *rng.pick(&[1usize, 1, 2, 4]);
+        let seed = 1 + rng.below(1_000_000) as u64;
+        // q0 never discovered, q1 sometimes (hit), q2 always (hit), q3 eventually never satisfied
+        let props = if rng.chance(1, 4) { vec![pr(2, 900, 4), pr(0, 700, 6)] } else { vec![pr(0, 0, 0), pr(2, 900, 4), pr(0, 700, 6), pr(1, 0, 0)] };
+        let (layers, width) = if strat == "sim" { (10, 30) } else { (22, 500) };
+        let mut c = RunCfg::new(layered(layers, width, 3, seed, props.clone()), strat, t);
+        let (k, names) = rng.pick(&fws).clone();
+        c.finish_when = FwSpec { kind: k.into(), names: names.into_iter().filter(|&i| i < props.len() || rng.chance(1, 2)).collect() };
+        c.target_state_count = match rng.below(3) { 0 => None, 1 => Some(1 + rng.below(4000)), _ => Some(100_000 + rng.below(100_000)) };
+        c.target_max_depth = match rng.below(3) { 0 | 1 => None, _ => Some(2 + rng.below(12)) };
+        if strat == "sim" {
+            // a simulation needs some reason to stop
+            c.timeout_ms = Some(300);
+            c.sim_seed = rng.next() % 1000;
+        }
+        c.perturb = if rng.chance(1, 3) { 0 } else { 1 + rng.next() % 1000 };
+        c.watchdog_ms = 30_000;
+        cfgs.push(c);
+    }
+    let res = run_all(&cfgs, wd, 12);
+    for (c, r) in cfgs.iter().zip(res.iter()) {
+        out.stat(&format!("limits-run-{}", c.strategy));
+        out.stat(&format!("limits-fw-{}", c.finish_when.kind));
+        out.distinct(&describe(c));
+        if let Some(o) = done(out, "limits", c, r) {
+            let is_sim = c.strategy == "sim";
+            let early = is_sim || o.missing > 0;
+            let timed_out = is_sim && o.wall_ms >= c.timeout_ms.unwrap_or(u64::MAX);
+            if early { out.stat("limits-run-stopped-early") } else { out.stat("limits-run-complete") }
+            let ps = srh::sx::list(c.model.props.iter().enumerate().map(|(i, p)| format!("({} {})", i, exp_sx(p.exp))));
+            let opt = |x: Option<usize>| match x { None => "none".to_string(), Some(v) => format!("(some {})", v) };
+            out.o(&format!(
+                "o-c12-stop {} {} {} {} {} {} {} {} {} {}",
+                c.finish_when.sx(), srh::sx::nums(&o.disc), ps, srh::sx::b(early), o.state_count, opt(c.target_state_count),
+                opt(c.target_max_depth), o.max_path_len, srh::sx::b(timed_out), srh::sx::b(is_sim)
+            ));
+            if let Some(l) = c.target_max_depth {
+                if o.max_path_len == l { out.stat("limits-sim-evaluates-depth==limit(one-deeper-than-bfs/dfs)") }
+            }
+            if o.visited_not_reachable > 0 || o.bad_paths > 0 || (!is_sim && o.dup_visits > 0) {
+                out.v("run-mismatch", &format!("not reachable {} / bad paths {} / evaluated twice {}: {}", o.visited_not_reachable, o.bad_paths, o.dup_visits, describe(c)));
+            }
+            // single-threaded BFS still evaluates every state nearer than the depth limit (when nothing else stops it)
+            if c.strategy == "bfs" && c.threads == 1 && c.target_max_depth.is_some() {
+                let stopped_otherwise = o.disc.len() == c.model.props.len()
+                    || c.target_state_count.map(|t| t <= o.state_count).unwrap_or(false)
+                    || fw_holds(&c.finish_when, &o.disc, &c.model.props);
+                if !stopped_otherwise {
+                    out.stat("bfs-depth-complete-checked");
+                    if o.missing_within_depth > 0 {
+                        out.v("bfs-depth-incomplete", &format!("{} states nearer than the depth limit were not evaluated: {}", o.missing_within_depth, describe(c)));
+                    }
+                }
+            }
+        }
+    }
+    // (d) simulation seed replay: same seed + chooser => same first trace; lcg / scripted choosers follow the
+    //     independent walk `expected_first_trace`
+    let mut cfgs = vec![];
+    let n_d = if thorough { 120 } else { 24 };
+    for i in 0..n_d {
+        let seed = 1 + rng.below(1_000_000) as u64;
+        let chooser = ["lcg", "script", "uniform"][i % 3];
+        let t = if i % 4 == 3 { 3 } else { 1 };
+        let mut c = RunCfg::new(layered(14, 25, 4, seed, vec![pr(0, 0, 0)]), "sim", t);
+        c.chooser = chooser.into();
+        c.script = (0..1 + rng.below(7)).map(|_| rng.below(10)).collect();
+        c.sim_seed = rng.next() % 100_000;
+        c.target_state_count = Some(1);
+        c.target_max_depth = if rng.chance(1, 3) { Some(3 + rng.below(8)) } else { None };
+        c.watchdog_ms = 20_000;
+        cfgs.push(c.clone());
+        cfgs.push(c);
+    }
+    let res = run_all(&cfgs, wd, 12);
+    for i in (0..cfgs.len()).step_by(2) {
+        let c = &cfgs[i];
+        out.stat(&format!("replay-{}-threads{}", c.chooser, c.threads));
+        out.distinct(&describe(c));
+        let (a, b) = (done(out, "replay 1", c, &res[i]), done(out, "replay 2", c, &res[i + 1]));
+        if let (Some(a), Some(b)) = (a, b) {
+            if a.first_trace != b.first_trace {
+                out.v("seed-replay-differs", &format!("{:?} vs {:?}: {}", a.first_trace, b.first_trace, describe(c)));
+            }
+            if a.first_trace.len() >= 2 {
+                out.stat("replay-trace-of-length>=2");
+            }
+            let m = BigModel { spec: c.model.clone() };
+            let expected = match c.chooser.as_str() {
+                "lcg" => {
+                    let mut st = c.sim_seed;
+                    Some(expected_first_trace(&m, |n| lcg_next(&mut st) % n, c.target_max_depth))
+                }
+                "script" => {
+                    let mut pos = (c.sim_seed % 1000) as usize;
+                    let sc = c.script.clone();
+                    Some(expected_first_trace(&m, |n| { pos += 1; sc[(pos - 1) % sc.len()] % n }, c.target_max_depth))
+                }
+                _ => None,
+            };
+            if let Some(e) = expected {
+                if e != a.first_trace {
+                    out.v("first-trace-not-a-function-of-seed-and-chooser", &format!("expected {:?} observed {:?}: {}", e, a.first_trace, describe(c)));
+                }
+            }
+            if i < 4 {
+                out.sample(&format!("replay {} seed {}: first trace {:?}", c.chooser, c.sim_seed, a.first_trace));
+            }
+        }
+    }
+}
+
+/// the harness's own reading of a finish condition (used only to decide whether a depth-limited BFS run was
+/// ALSO stopped by something else; the judgement of early stops is the Lean oracle's)
+fn fw_holds(fw: &FwSpec, disc: &[usize], props: &[PropSpec]) -> bool {
+    let has = |i: &usize| disc.contains(i);
+    match fw.kind.as_str() {
+        "all" => disc.len() == props.len(),
+        "any" => !disc.is_empty(),
+        "anyf" => (0..props.len()).any(|i| props[i].exp != 2 && has(&i)),
+        "allf" => (0..props.len()).all(|i| props[i].exp == 2 || has(&i)),
+        "allof" => fw.names.iter().all(has),
+        _ => fw.names.iter().any(has),
+    }
+}
 
 fn main() {
+    maybe_child();
     quiet_panics();
     let mut out = Out::new();
+    out.max_samples = 16;
     let mut rng = Rng::new(seed());
     let th = thorough();
     if arg_str("--only").map(|s| s != "timing").unwrap_or(true) {
